@@ -22,7 +22,9 @@ token_at = L.UF('token_at', I, I, Val)           # (text id, k) -> k-th token ob
 CARRIED = ('lineno', 'paren_count', 'ast')       # lexer fields PLY reads but does not initialise itself
 # what each carried field decides: line numbers in messages (C20), which line breaks are separators and hence
 # which texts are accepted (C06, C15), which tree is returned (C17)
-RESET_PROPS = {'lineno': ['C11', 'C20'], 'paren_count': ['C11', 'C06', 'C15', 'C07'], 'ast': ['C11', 'C06', 'C17', 'C07']}
+# what a parse yields depends on the carried lexer fields: every property about parse results relies on the resets
+RESET_PROPS = {'lineno': ['C11', 'C20'], 'paren_count': ['C11', 'C06', 'C15', 'C07', 'C16', 'C17', 'C18', 'C20'],
+               'ast': ['C11', 'C06', 'C17', 'C07', 'C15', 'C16', 'C18']}
 RESET_VALUE = {'lineno': L.IntV(1), 'paren_count': L.IntV(0), 'ast': L.NoneV, 'lexpos': L.IntV(0)}
 
 
@@ -399,10 +401,10 @@ class Eval(FnContract):
                      {'states_built': len(states)})
         ex.prove('C10:%s:exactly-one-scoped-names-per-call' % n, ['C10', 'C11'], len(sds) == 1 or outcome[0] == 'raise' and len(sds) <= 1)
         for p in parses:
-            ex.prove('C07:%s:parses-its-text-without-trailing-whitespace' % n, ['C07', 'C17'],
+            ex.prove('C07:%s:parses-its-text-without-trailing-whitespace' % n, ['C07', 'C17', 'C20', 'C15', 'C16', 'C06'],
                      z3.And(L.is_Str(p[2]), Val.s(p[2]) == L.UF('str_rstrip', I, I)(Val.s(ctx['expr']))))
             ex.prove('C11:%s:parses-with-its-own-parser' % n, ['C11'], p[1] == ctx['self'])
-        ex.prove('C07:%s:parses-once' % n, ['C07', 'C17'], len(parses) <= 1)
+        ex.prove('C07:%s:parses-once' % n, ['C07', 'C17', 'C01', 'C20'], len(parses) <= 1)
         if outcome[0] == 'return':
             tree = parse_tree(L.UF('str_rstrip', I, I)(Val.s(ctx['expr'])))
             if calls:
@@ -530,8 +532,13 @@ def eval_loop_axioms(ex, env, i):
 def tasks(engine):
     engine.loops.invariants[(MOD + 'eval', 0)] = eval_loop
     engine.loops.post_bind_axioms[(MOD + 'eval', 0)] = eval_loop_axioms
-    out = [parse_task(engine), eval_task(engine)]
-    ln = engine.src.funcs[MOD + 'list_names']
+    out = []
+    add_task(engine, out, lambda: parse_task(engine))
+    add_task(engine, out, lambda: eval_task(engine))
+    ln = engine.src.funcs.get(MOD + 'list_names')
+    if ln is None:
+        engine.missing_functions.append(MOD + 'list_names')
+        return out
     if ln.is_generator():
         engine.loops.invariants[(ln.key, 0)] = list_names_loop
         out.append(list_names_task(engine))
